@@ -315,6 +315,32 @@ func doTheta(d thetaDesc) {
 		rax = fromV(r.Rotate(toV(d.Axis)))
 	})
 	scale := (1 + maxabs(d.V)) * (1 + maxabs(d.V)) * (1 + maxabs(d.Axis))
+	// float oracle (works even when the Coq side does not build): unit quaternion, length preserved, axis fixed,
+	// agreement with Rodrigues' formula  v cos t + (k x v) sin t + k (k.v)(1 - cos t),  k = axis/|axis|
+	if crash == "" && finite(flat(q, rv, rax)...) {
+		la := math.Sqrt(dot3(d.Axis, d.Axis))
+		k := []float64{d.Axis[0] / la, d.Axis[1] / la, d.Axis[2] / la}
+		st, ct := math.Sin(d.Theta), math.Cos(d.Theta)
+		kv := dot3(k, d.V)
+		kxv := []float64{k[1]*d.V[2] - k[2]*d.V[1], k[2]*d.V[0] - k[0]*d.V[2], k[0]*d.V[1] - k[1]*d.V[0]}
+		lv, lr := math.Sqrt(dot3(d.V, d.V)), math.Sqrt(dot3(rv, rv))
+		n2 := q[0]*q[0] + q[1]*q[1] + q[2]*q[2] + q[3]*q[3]
+		switch {
+		case math.Abs(n2-1) > 1e-9:
+			crash = fmt.Sprintf("FromTheta(theta, axis) is not a unit quaternion: |q|^2 - 1 = %g", n2-1)
+		case math.Abs(lr-lv) > 1e-9*(1+lv):
+			crash = fmt.Sprintf("Rotate(FromTheta(theta, axis), v) changes the length of v: %.17g -> %.17g", lv, lr)
+		}
+		for i := 0; i < 3 && crash == ""; i++ {
+			want := d.V[i]*ct + kxv[i]*st + k[i]*kv*(1-ct)
+			if math.Abs(rv[i]-want) > 1e-9*(1+lv) {
+				crash = fmt.Sprintf("Rotate(FromTheta(theta, axis), v)[%d] = %.17g, Rodrigues' formula gives %.17g", i, rv[i], want)
+			}
+			if math.Abs(rax[i]-d.Axis[i]) > 1e-9*(1+la) {
+				crash = fmt.Sprintf("Rotate(FromTheta(theta, axis), axis) moves the axis: component %d %.17g -> %.17g", i, d.Axis[i], rax[i])
+			}
+		}
+	}
 	coq := ""
 	ok := crash == "" && finite(flat(q, rv, rax)...)
 	if ok {
